@@ -97,7 +97,32 @@ type fnObs struct {
 	Backlinks [][]interface{} `json:"backlinks"`
 }
 
-func observeFootnotes(out []byte) fnObs {
+// observeFootnotes reads ids and hrefs of the footnote markup; a configured id prefix is taken off
+// where it stands (an id or href without it stays as it is and fails the acceptor's id forms).
+func observeFootnotes(out []byte, prefix string) fnObs {
+	o := observeFootnotesRaw(out)
+	if prefix == "" {
+		return o
+	}
+	strip := func(v string) string {
+		if strings.HasPrefix(v, "#") {
+			return "#" + strings.TrimPrefix(v[1:], prefix)
+		}
+		return strings.TrimPrefix(v, prefix)
+	}
+	for i := range o.Items {
+		o.Items[i] = strip(o.Items[i])
+	}
+	for i := range o.Refs {
+		o.Refs[i][0], o.Refs[i][1] = strip(o.Refs[i][0]), strip(o.Refs[i][1])
+	}
+	for i := range o.Backlinks {
+		o.Backlinks[i][1] = strip(o.Backlinks[i][1].(string))
+	}
+	return o
+}
+
+func observeFootnotesRaw(out []byte) fnObs {
 	o := fnObs{Items: []string{}, Refs: [][]string{}, Backlinks: [][]interface{}{}}
 	toks := tokenizeHTML(out)
 	inList := false
@@ -247,7 +272,7 @@ func c16Judge(md goldmark.Markdown, cs c16Case) (why string, obs fnObs, out []by
 	if err != nil {
 		return "conversion-failed", obs, out
 	}
-	obs = observeFootnotes(out)
+	obs = observeFootnotes(out, cs.Config.FnPrefix)
 	bad, _ := tlcJudge("TraceFootnote", "TraceFootnote.cfg", "footnotes.ndjson", []interface{}{obs})
 	if len(bad) > 0 {
 		return bad[0].Why, obs, out
@@ -295,7 +320,8 @@ func runC16(c *Ctx) {
 	if c.Thorough() {
 		genCfg = "Footnote_gen4.cfg"
 	}
-	cfgs := []mdConfig{{Ext: "footnote"}, {Ext: "nocjk"}, {Ext: "all", XHTML: true}, {Ext: "nocjk", Unsafe: true, AutoID: true}}
+	cfgs := []mdConfig{{Ext: "footnote"}, {Ext: "nocjk"}, {Ext: "all", XHTML: true}, {Ext: "nocjk", Unsafe: true, AutoID: true},
+		{Ext: "footnote", FnPrefix: "p"}, {Ext: "nocjk", FnPrefix: "article12-", XHTML: true}} // id prefixes of 1 and 10 bytes
 	mds := make([]goldmark.Markdown, len(cfgs))
 	for i, cf := range cfgs {
 		mds[i] = cf.build()
@@ -370,7 +396,7 @@ func runC16(c *Ctx) {
 		if err != nil {
 			return
 		}
-		o := observeFootnotes(out)
+		o := observeFootnotes(out, cfgs[docCfg[i]].FnPrefix)
 		b, _ := json.Marshal(o)
 		mu.Lock()
 		nConv++
